@@ -219,6 +219,12 @@ func ruleC08(c *Check, p *Prog) {
 		if sd != nil && sd.ok && fillObjects(sd) == "" {
 			sib = descString(sd.S, sd.Bytes, sd.Round, sd.Items, sd.DistOuter, sd.DistInner)
 		}
+		if sd != nil && sd.ok && sib != "" {
+			// "the same verdict as its sequential counterpart": the counterpart must follow the same decision rule
+			rls, _ := roundLenOf(p, sd.Round)
+			checkAccumulate(c, p, "sibling/"+seqRefs[i].Name, sd, sd.X.S, sd.Sample.Body, sd.RoundCall, iterTerm(sd.X.S, sd.Sample), sd.Counters, sd.Dist, false, rls)
+			checkDecide(c, p, "sibling/"+seqRefs[i].Name, sd, seqRefs[i].S, seqRefs[i].Items, nil, seqErrorReturn(sd))
+		}
 		got := descString(d.S, d.Bytes, d.Round, d.Items, d.DistOuter, d.DistInner)
 		want := descString(ref.S, ref.Bytes, ref.Round, ref.Items, ref.Items, ref.S)
 		// the byte count handed to the worker must be the one its buffer uses
